@@ -127,6 +127,29 @@ func (st LString) Format(f fmt.State, c rune) {
 		}
 		buf = append(buf, '"')
 		f.Write(buf)
+	case 's':
+		// width and precision count bytes as in C (fmt counts UTF-8 runes)
+		s := []byte(st)
+		if p, ok := f.Precision(); ok && p < len(s) {
+			s = s[:p]
+		}
+		var pad []byte
+		if w, ok := f.Width(); ok && w > len(s) {
+			pad = make([]byte, w-len(s))
+			for i := range pad {
+				pad[i] = ' '
+				if f.Flag('0') && !f.Flag('-') {
+					pad[i] = '0'
+				}
+			}
+		}
+		if f.Flag('-') {
+			f.Write(s)
+			f.Write(pad)
+		} else {
+			f.Write(pad)
+			f.Write(s)
+		}
 	default:
 		defaultFormat(string(st), f, c)
 	}
